@@ -9,6 +9,10 @@ Requests (`N` = None):
       → ok rows=<csv|->            | err ValueError
   conv_sample <s> <n>                      … for a Sample(s)
       → ok rows=<csv|->
+  bit_slice   <start> <stop> <step> <n>   what the BIT converter does (count gate, IndexError on empty sliced arrays)
+      → ok rows=<csv|-> | ok indexerror | err ValueError
+  lis_slice   <start> <stop> <step> <n> <fpr csv>   what the LIS converter does (frames per data record given)
+      → ok rows=<csv|-> | ok planerror  | err ValueError
   rp66_slice  <start> <stop> <step> <n>   rows written by the RP66V1 converter + indices whose X is printed as STRT / STOP
       → ok rows=<csv|-> strt=<i> stop=<i>
   rp66_sample <s> <n>
@@ -30,6 +34,22 @@ def step (line : String) : String :=
       | .ok l => s!"ok rows={orDash (joinInts l)}"
       | .error e => showErr e
     | _, _, _, _ => "bad-op"
+  | ["bit_slice", a, b, c, n] =>
+    match optInt a, optInt b, optInt c, n.toNat? with
+    | some a, some b, some c, some n =>
+      match bitOutSlice a b c n with
+      | .ok (.rows l) => s!"ok rows={orDash (joinInts l)}"
+      | .ok .indexError => "ok indexerror"
+      | .error e => showErr e
+    | _, _, _, _ => "bad-op"
+  | ["lis_slice", a, b, c, n, fpr] =>
+    match optInt a, optInt b, optInt c, n.toNat?, (if fpr = "-" then some [] else (fpr.splitOn ",").mapM String.toNat?) with
+    | some a, some b, some c, some n, some fpr =>
+      match lisOutSlice fpr a b c n with
+      | .ok (.rows l) => s!"ok rows={orDash (joinInts l)}"
+      | .ok .planError => "ok planerror"
+      | .error e => showErr e
+    | _, _, _, _, _ => "bad-op"
   | ["conv_sample", s, n] =>
     match s.toNat?, n.toNat? with
     | some s, some n =>
